@@ -60,9 +60,9 @@ P = {
          "allow_zero": ("INext", "IAssign", "IFree", "IPodSet", "IPodDel", "IPodCacheSync")},
     ],
     "gen": {"module": "Gen_GC", "cfg": "Gen_sim.cfg", "simulate": {"num": 100, "depth": 250},
-            "thorough_simulate": {"num": 2500, "depth": 250}, "timeout": 900, "thorough_timeout": 2400},
+            "thorough_simulate": {"num": 800, "depth": 250}, "timeout": 900, "thorough_timeout": 2400},
     "driver": DRIVER,
-    "n_random": (250, 5000),
+    "n_random": (250, 4000),
     "trace": {"module": "T_GC", "cfg": "T_GC.cfg", "timeout": 2400, "heap": "4g"},
     "chunk": 120000,
     "signature": signature,
@@ -122,7 +122,7 @@ def run(ctx):
     P2 = dict(P)
     P2["design"] = []
     P2["gen"] = {"module": "Gen_GC", "cfg": "Gen_sim_vm.cfg", "simulate": {"num": 30, "depth": 250},
-                 "thorough_simulate": {"num": 600, "depth": 250}, "timeout": 900, "thorough_timeout": 2400}
+                 "thorough_simulate": {"num": 200, "depth": 250}, "timeout": 900, "thorough_timeout": 2400}
     P2["n_random"] = (0, 0)
     pipeline.standard_check(ctx, P2)
     if not ctx.quick and not ctx.violations:
